@@ -43,5 +43,7 @@ func RedisDriver() (*Driver, error) {
 	}
 	m.FlushAll()
 	return &Driver{Name: "redis", St: st, Now: time.Now, WaitMax: 3 * time.Second,
-		Advance: func(d time.Duration) { m.FastForward(d) }}, nil
+		Advance: func(d time.Duration) { m.FastForward(d) },
+		// Redis has no "already expired" write: such a record gets the minimum TTL of 1 ms; let that pass
+		PastWrite: func() { m.FastForward(2 * time.Millisecond) }}, nil
 }
